@@ -17,6 +17,8 @@ def run(ctx):
                 workers=2, timeout=300, count=False, tag="mutant BlockingSend")
     if m.violated != "NeverParksInWrite":
         raise vlib.Infra("vacuity: the blocking-send mutant never parks the writer")
+    # unbounded: the same invariants for ANY number of writes and ANY byte counts, by the TLA+ proof system
+    ctx.tlaps("util", "ProgressProof", timeout=900, tag="ProgressProof (inductive invariant, unbounded MaxWrites / MaxN)")
     hb = ctx.build("progress")
     ctx.run([hb, "-out", ctx.path("traces.ndjson"), "-runs", "160" if q else "2000"], timeout=2400)
     rows = vlib.read_ndjson(ctx.path("traces.ndjson"))
